@@ -278,6 +278,11 @@ def check(run, views, tier):
         for path, body in F.hir.items():
             if (path.startswith("ipp::reader::") or path.startswith("ipp::parser::")) and path.split("::")[-1].startswith("poll") and "::tests::" not in path:
                 run.ob("R-TWIN", "no poll_* fn in reader/parser", False, path, site(body), key="R-TWIN|poll-fn|%s" % path)
+    # "the same trailing document bytes ... however the source reports not-ready": the payload wrapper must forward polls unchanged (C08's R-FORWARD / R-CHAIN)
+    from . import c08
+    saved = (run.explanation, run.trusted, run.not_decided)
+    c08.check(run, views, tier)
+    run.explanation, run.trusted, run.not_decided = saved
     if not any_async:
         run.cfg = None
         run.violate("R-TWIN", "R-TWIN|no-async-cfg", "no analysed configuration contains the async twins")
